@@ -2,6 +2,7 @@ package main
 
 import (
 	"fmt"
+	"os"
 	"go/ast"
 	"go/token"
 	"go/types"
@@ -50,6 +51,9 @@ func (fc *FnCtx) calleeInfo(c *ast.CallExpr) (name string, pkgPath string, fn *t
 					}
 					if _, isIface := drt.Underlying().(*types.Interface); isIface {
 						return typeName(drt) + "." + m.Name(), pkgOf(m), m, f.X, "iface"
+					}
+					if typeName(drt) != tn {
+						fc.staticRecvName = tn + "." + m.Name() // promoted method: static receiver type
 					}
 					tn = typeName(drt)
 				}
@@ -118,7 +122,9 @@ func (fc *FnCtx) evalCall(st *State, c *ast.CallExpr, stmt bool) Val {
 			return fc.evalBuiltin(st, c, id.Name)
 		}
 	}
+	fc.staticRecvName = ""
 	name, pkgPath, fn, recv, kind := fc.calleeInfo(c)
+	staticName := fc.staticRecvName
 	// b2s / s2b are identity views
 	if fn != nil && pkgPath == fc.pkg.PkgPath {
 		switch name {
@@ -156,13 +162,29 @@ func (fc *FnCtx) evalCall(st *State, c *ast.CallExpr, stmt bool) Val {
 	if tv, ok := fc.pkg.TypesInfo.Types[c]; ok {
 		resT = tv.Type
 	}
+	if debugCalls {
+		how := "unknown"
+		if fc.findOnCall(name, pkgPath, kind, false) != nil {
+			how = "on-call"
+		} else if fc.lookupContract(name, pkgPath) != nil && fn != nil {
+			how = "contract"
+		} else if fc.eng.knownPure(pkgPath, name) {
+			how = "pure"
+		}
+		fmt.Fprintf(os.Stderr, "call %-14s %s %s.%s\n", fc.pos(c.Pos()), how, pkgPath, name)
+	}
 	// 1. skeleton ghost effects declared by the enclosing function's contract
+	if staticName != "" {
+		if oc := fc.findOnCall(staticName, pkgPath, kind, false); oc != nil {
+			return fc.applyOnCall(st, oc, c, args, resT, staticName)
+		}
+	}
 	if oc := fc.findOnCall(name, pkgPath, kind, false); oc != nil {
 		return fc.applyOnCall(st, oc, c, args, resT, name)
 	}
 	// 2. callee contract
 	if ct := fc.lookupContract(name, pkgPath); ct != nil && fn != nil {
-		return fc.applyContract(st, ct, fn, c, args, argExprs, resT)
+		return fc.applyContract(st, ct, fn, c.Pos(), args)
 	}
 	// 3. unknown callee
 	return fc.unknownCall(st, c, name, pkgPath, fn, args, resT)
@@ -522,7 +544,7 @@ func sigResults(fn *types.Func, ct *FuncContract) (names []string, typs []types.
 	return
 }
 
-func (fc *FnCtx) applyContract(st *State, ct *FuncContract, fn *types.Func, c *ast.CallExpr, args []Val, argExprs []ast.Expr, resT types.Type) Val {
+func (fc *FnCtx) applyContract(st *State, ct *FuncContract, fn *types.Func, cpos token.Pos, args []Val) Val {
 	pn, pt, variadic := sigParams(fn)
 	if variadic && len(args) != len(pn) {
 		if !fc.lenient {
@@ -544,7 +566,7 @@ func (fc *FnCtx) applyContract(st *State, ct *FuncContract, fn *types.Func, c *a
 	// requires
 	for k, cl := range ct.Requires {
 		t := fc.specBool(st, cl.Expr, &specEnv{fc: fc, st: st, old: st, bind: bind, callee: ct})
-		fc.assert(st, "requires", fmt.Sprintf("call[%s].%s", key, clauseName("requires", cl, k)), t, c.Pos(), cl.Src)
+		fc.assert(st, "requires", fmt.Sprintf("call[%s].%s", key, clauseName("requires", cl, k)), t, cpos, cl.Src)
 	}
 	// effects
 	fc.applyModifies(st, ct, bind, pn, pt)
@@ -691,9 +713,12 @@ func (fc *FnCtx) unknownCall(st *State, c *ast.CallExpr, name, pkgPath string, f
 		if tup.Len() == 0 {
 			return VTuple{}
 		}
-		return fc.freshVal(tup, name)
+		r := fc.freshVal(tup, name)
+		fc.excludeInResult(r, tup)
+		return r
 	}
 	r := fc.freshVal(resT, name)
+	fc.excludeInResult(r, resT)
 	if short := pkgPath + "." + name; short == "fmt.Errorf" || short == "errors.New" {
 		// a new error value: non-nil and different from every sentinel
 		fc.axiom(lt(mkInt(int64(fc.eng.maxErrCode())), asInt(r)))
@@ -751,6 +776,8 @@ func (fc *FnCtx) applyOnCall(st *State, oc *OnCall, c *ast.CallExpr, args []Val,
 	pre := st.clone()
 	for k, cl := range oc.Requires {
 		if !fc.clauseActive(cl) {
+			// owned by another property: neither proved nor assumed here (a mid-path assumption could hide a
+			// violation of the property being checked)
 			continue
 		}
 		env := &specEnv{fc: fc, st: st, old: fc.entry, bind: bind, at: c.Pos(), scopeNode: c}
@@ -773,6 +800,12 @@ func (fc *FnCtx) applyOnCall(st *State, oc *OnCall, c *ast.CallExpr, args []Val,
 	for i, r := range oc.Results {
 		if i < len(res) && r != "_" {
 			bind[r] = res[i]
+		}
+	}
+	if len(res) > 0 {
+		fc.excludeInResult(res, resT)
+		if len(res) == 1 {
+			fc.excludeInResult(res[0], resT)
 		}
 	}
 	if oc.Returns != nil && len(res) >= 1 {
@@ -977,3 +1010,5 @@ func (fc *FnCtx) finishReturn(st *State, vals []Val, p token.Pos) {
 	fc.canary(st, fmt.Sprintf("canary.return%d", fc.retCount), p)
 	fc.checkPost(st, vals, p)
 }
+
+var debugCalls = os.Getenv("GOCV_DEBUG") != ""
